@@ -88,7 +88,7 @@ KINDS = [['ok', 'prims'], ['ok', 'echo'], ['ok', 'inners'], ['ok', 'multi'],
          ['ok', 'noargs'], ['ok', 'sub'], ['ok', 'strict'], ['gen', 2],
          ['failcall'], ['unknown'], ['invalid'], ['wsdl'], ['ok', 'pa'],
          ['ok', 'poly'], ['malformed', 'truncate'], ['ok', 'item1'],
-         ['ok', 'item2'], ['twins']]
+         ['ok', 'item2'], ['twins'], ['wsdl', 'badhost']]
 
 
 def _request_mix(rng, theme):
@@ -153,6 +153,9 @@ def gen_cases(tier, verif_seed):
         if rng.random() < .4:
             for c in range(min(n_callers, rng.randint(2, 4))):
                 callers[c][0] = ['wsdl']
+            # ... and now and then the build fails for one of the requesters
+            if rng.random() < .25:
+                callers[rng.randrange(n_callers)][0] = ['wsdl', 'badhost']
         for k in range(GROUP):
             seed = derive(gseed, 'run', k) & 0xffffffffffff
             sr = Streams(seed)['schedule']
@@ -192,6 +195,10 @@ def _instance(case):
     app = uni.make_app(make_protocol(case['in_prot'], case['validator']),
                                     make_protocol(case['out_prot'], **kw))
     wsgi = WsgiApplication(app)
+    if getattr(app.in_protocol, 'validation_schema', None) is not None:
+        # lxml validates with the GIL released: make that window schedulable
+        app.in_protocol.validation_schema = sched.SchemaProxy(
+                                          app.in_protocol.validation_schema)
     built = []
     if wsgi.doc.wsdl11 is not None:
         wsgi.doc.wsdl11.event_manager.add_listener('wsdl_document_built',
@@ -349,7 +356,7 @@ def run_case(case):
     for idx, e in sorted(s.errors.items()):
         raise RuntimeError('harness: caller %d died: %r' % (idx, e))
 
-    n_wsdl = 0
+    n_wsdl = n_wsdl_good = 0
     switch_sites = [d[3] for d in s.decisions]
     if not s.aborted:
         for ci, reqs in enumerate(case['callers']):
@@ -361,8 +368,15 @@ def run_case(case):
                     continue
                 is_wsdl = rclass[0] == 'wsdl'
                 n_wsdl += is_wsdl
+                n_wsdl_good += rclass == ['wsdl']
                 got = canon.canon_response(out_prot, o, is_wsdl)
                 ref, _, ref_raw = _reference(case, ci, ri)
+                if is_wsdl and rclass != ['wsdl'] and got != ref:
+                    # the build fails for this requester when it is the one
+                    # that builds; once somebody else's build has succeeded it
+                    # is served the same complete document as everybody else
+                    ref, _, ref_raw = _reference(dict(case, callers=[[
+                        ['wsdl']]], aseeds=[[0]]), 0, 0)
                 if got == ref and ref_raw != (canon.mask(o.body)
                                       if o.body is not None else None):
                     # same document, different bytes (e.g. namespace
@@ -385,9 +399,11 @@ def run_case(case):
                 if not _cl_ok(o):
                     viol('content-length|%s' % rclass[0], 'Content-Length '
                          'does not match the bytes produced (caller %d)' % ci)
-        if n_wsdl and wsgi_has_wsdl(case) and len(built) != 1:
+        if n_wsdl and wsgi_has_wsdl(case) and \
+                                    len(built) != (1 if n_wsdl_good else 0):
             viol('wsdl-built-%d-times' % len(built), 'wsdl_document_built '
-                 'fired %d times for %d ?wsdl requests' % (len(built), n_wsdl))
+                 'fired %d times for %d ?wsdl requests (%d of them can be '
+                 'answered)' % (len(built), n_wsdl, n_wsdl_good))
     in_flight_switches = len(s.decisions)
     sig = digest([[d[0], d[2], d[3]] for d in s.decisions])
     region_probes = dict(('switch_at:' + k, v)
